@@ -21,6 +21,11 @@ OPID = {v: k for k, v in OPNAME.items()}
 INT_LIMIT = 2 ** 31 - 1
 
 
+# When True, integers / rationals beyond TLC's 32-bit range are exported symbolically (n = "Z:<num>" /
+# "Q:<num>/<den>", i = zeros): usable where only the IDENTITY of the number matters (C04), never for Eval.
+SYMBOLIC_BIG = False
+
+
 class Unrepresentable(Exception):
     """The term cannot be handed to TLC (integer beyond 32 bits, algebraic constant...)."""
 
@@ -112,10 +117,17 @@ def export(f, memo=None):
         elif nt == op.BOOL_CONSTANT:
             r = node(name, i=[1 if x.constant_value() else 0])
         elif nt == op.INT_CONSTANT:
-            r = node(name, i=[_chk(int(x.constant_value()))])
+            v = int(x.constant_value())
+            if SYMBOLIC_BIG and abs(v) > INT_LIMIT:
+                r = node(name, n="Z:%d" % v, i=[0])
+            else:
+                r = node(name, i=[_chk(v)])
         elif nt == op.REAL_CONSTANT:
             v = x.constant_value()
-            r = node(name, i=[_chk(int(v.numerator)), _chk(int(v.denominator))])
+            if SYMBOLIC_BIG and (abs(v.numerator) > INT_LIMIT or v.denominator > INT_LIMIT):
+                r = node(name, n="Q:%d/%d" % (v.numerator, v.denominator), i=[0, 0])
+            else:
+                r = node(name, i=[_chk(int(v.numerator)), _chk(int(v.denominator))])
         elif nt == op.BV_CONSTANT:
             r = node(name, i=[_chk(int(x.constant_value())), _chk(x.bv_width())])
         elif nt == op.STR_CONSTANT:
